@@ -76,6 +76,11 @@ def programs():
         [("renamed", "referenced", {"BUILD.dawn": T + "    def fmt(x, *, pad):\n        return str(x) + str(pad)\n    print(fmt(1, **{\"width\": 2}))\n"})])
     add("varargs-parameter-renamed", "def h(*xs, **opts):\n    return (xs, opts)\n" + T + "    print(h(1))\n",
         [("renamed", "referenced", {"BUILD.dawn": "def h(*ys, **opts):\n    return (ys, opts)\n" + T + "    print(h(1))\n"})])
+    # what the interpreter holds for "no value" is not a value the program could have written
+    add("kwonly-gains-marker-like-default", "def helper(a=1, *, b):\n    return (a, b)\n" + T + "    print(helper(b=2))\n",
+        [("default-added", "referenced", {"BUILD.dawn": "def helper(a=1, *, b=\"<mandatory>\"):\n    return (a, b)\n" + T + "    print(helper(b=2))\n"})])
+    add("free-variable-gains-marker-like-value", "def outer():\n    def inner():\n        return y\n    if False:\n        y = 1\n    return inner\nG = outer()\n" + T + "    print(G)\n",
+        [("assigned", "referenced", {"BUILD.dawn": "def outer():\n    def inner():\n        return y\n    if True:\n        y = \"<unassigned>\"\n    return inner\nG = outer()\n" + T + "    print(G)\n"})])
     add("unassigned-free-variable", "def outer():\n    def inner():\n        return y\n    if False:\n        y = 1\n    return inner\nG = outer()\n" + T + "    print(G)\n")
     add("self-containing-list", "X = [1]\nX.append(X)\n" + T + "    print(len(X))\n",
         [("element", "referenced", {"BUILD.dawn": "X = [2]\nX.append(X)\n" + T + "    print(len(X))\n"})])
